@@ -208,7 +208,9 @@ async def scenario(env: Any, case: Dict[str, Any]) -> Any:
             # client-initiated close, with the client's code
             await env.sleep(0.5)
             if closing == "client_first_drop":
-                ws.conn.fail_writes(0)  # the close frame arrives; the echo can not be written
+                # the close frame arrives; the echo can not be written (and the failing send
+                # reports one of the errors a lost peer shows as)
+                ws.conn.fail_writes(0, a.get("reset_how", "pipe"))
             ws.conn.send(close_frame(a["client_code"]))
             if closing == "client_first_eof":
                 ws.conn.eof()
